@@ -77,6 +77,11 @@ func c18Extra(ctx *Ctx, base *c18Input) {
 		in := &c18Input{Kind: k, Bytes: base.Bytes, Chunkings: base.Chunkings, EOFWith: base.EOFWith}
 		ctx.Emit("chunk", in, c18Run(in), len(base.Bytes) > 16, "kind="+k, "decoder-option")
 	}
+	if base.Kind == "packfile" {
+		// the same packfile as the body of an upload-pack response, through the API client
+		in := &c18Input{Kind: "packfile-via-client", Bytes: base.Bytes, Chunkings: base.Chunkings, EOFWith: base.EOFWith}
+		ctx.Emit("chunk", in, c18Run(in), true, "kind=packfile-via-client", "api-client")
+	}
 	if base.Kind != "strlist" {
 		return
 	}
